@@ -1,6 +1,6 @@
 SPECIFICATION Spec
-CONSTANTS Kx = 2
-          Ky = 2
+CONSTANTS Kx = 3
+          Ky = 1
           N = 2
           W = 2
 INVARIANT Recip
